@@ -26,7 +26,8 @@ def parse(abbr: str, config: Config):
         snippets = convert_snippets(config.snippets)
         if config.cache is not None:
             config.cache['stylesheet_snippets'] = snippets
-            config.cache['stylesheet_snippets_source'] = config.snippets
+            # NB: keep a copy: caller may edit snippets of a kept `Config` in place
+            config.cache['stylesheet_snippets_source'] = dict(config.snippets)
 
     if isinstance(abbr, str):
         abbr = abbreviation(abbr, { 'value': is_value_scope(config) })
